@@ -17,6 +17,8 @@ def check(ctx):
     rep.floor("Str / Uri escape transducer obligations", ne1 + ne2, 13)
     _tzz.check_utc_guard(ctx, rep)
     _tzz.check_offset_fields(ctx, rep)
+    ncr = _tzz.check_component_rebuild(ctx, rep)
+    rep.floor("timestamps rebuilt from components", ncr, 1)
     ntz = _tzz.check(ctx, rep)
     rep.floor("zone-mapping call sites (R-TZ)", ntz, 10)
     from rules import units as _un
